@@ -8,12 +8,12 @@ open Agd.Gen.C10
 def wrap_if_conds_expected : String := "raddr.Port() == 0 | mw.isBlockedByAccess(ctx, ri, req, raddr) | !cont | locErr != nil"
 theorem wrap_if_conds_src : wrap_if_conds = wrap_if_conds_expected := by decide
 
-/-- A blocked request returns `nil` before the device finder's error is returned, before `processLocationErr` (FORMERR) and before `serveWithRatelimiting` (the next stage). -/
-def wrap_returns_expected : String := "nil | nil | err | mw.processLocationErr(ctx, rw, req, locErr) | mw.serveWithRatelimiting(ctx, rw, req, ri, next) | dnsserver.HandlerFunc(f)"
+/-- A blocked request returns `nil` before the device finder's error is returned (`serveDeviceErr`), before `serveLocationErr` (FORMERR; both go through the rate limiter since the C09 repair) and before `serveWithRatelimiting` (the next stage). -/
+def wrap_returns_expected : String := "nil | nil | mw.serveDeviceErr(ctx, rw, req, ri, err) | mw.serveLocationErr(ctx, rw, req, ri, locErr) | mw.serveWithRatelimiting(ctx, rw, req, ri, next) | dnsserver.HandlerFunc(f)"
 theorem wrap_returns_src : wrap_returns = wrap_returns_expected := by decide
 
-/-- Source order of the calls: the access check precedes the handling of the device result, the FORMERR path, `ContextWithRequestInfo` and the next stage. -/
-def wrap_ctx_calls_expected : String := "location,newRequestInfo,isBlockedByAccess,handleDeviceResult,processLocationErr,ContextWithRequestInfo,serveWithRatelimiting"
+/-- Source order of the calls: the access check precedes the handling of the device result, the two error paths, `ContextWithRequestInfo` and the next stage. -/
+def wrap_ctx_calls_expected : String := "location,newRequestInfo,isBlockedByAccess,handleDeviceResult,serveDeviceErr,serveLocationErr,ContextWithRequestInfo,serveWithRatelimiting"
 theorem wrap_ctx_calls_src : wrap_ctx_calls = wrap_ctx_calls_expected := by decide
 
 /-- Only the unknown-dedicated and error results stop the handler. -/
